@@ -30,7 +30,8 @@ type recApp struct {
 	hash    []byte
 	hashLog [][]byte // own hash after each commit (what an older snapshot would hold)
 	hgtLog  []int64  // height reported after each commit
-	retain  int64    // > 0: Commit answers RetainHeight = height - retain (the node prunes below it)
+	retainK int64    // >= 0: Commit answers RetainHeight = height + 1 - retainK (the node prunes below it); -1: none
+	hasRet  bool
 	ih      int64    // InitialHeight (the first block's height); 0/1 = 1
 	pend    *pendExec
 	journal []string
@@ -269,8 +270,8 @@ func (a *recApp) Commit() abci.ResponseCommit {
 	defer a.mu.Unlock()
 	a.record("C")
 	res := abci.ResponseCommit{Data: a.hash}
-	if a.retain > 0 && a.height > a.retain {
-		res.RetainHeight = a.height - a.retain
+	if a.hasRet && a.height+1-a.retainK >= 1 {
+		res.RetainHeight = a.height + 1 - a.retainK
 	}
 	return res
 }
